@@ -866,6 +866,12 @@ class Interp:
             return self.call_repo(self.F.by_fid[fid], e, env)
         if "obj" not in e and nm in ("sqrt", "abs", "fabs", "floor", "isfinite", "max", "min"):
             return self.std_call(e, env, c)
+        if "obj" in e and op in ("+", "-") and "__normal_iterator" in str(c.get("cls", "")):
+            it = self.ev(e["obj"], env)
+            if isinstance(it, tuple) and it[0] == "iter" and e.get("args"):
+                d = self.ev(e["args"][0], env)
+                off = self.iter_offset(it)
+                return ("iter", it[1], sp.expand(off + d if op == "+" else off - d))
         raise Unsupported("call to %s (line %s)" % (c.get("q"), e.get("line")))
 
     def bind_param(self, p, a, env):
@@ -1201,6 +1207,16 @@ class Interp:
             return
         raise Unsupported("resize on %s" % type(v).__name__)
 
+    def iter_offset(self, it):
+        """element offset of an iterator value ("iter", container, 'begin'|'end'|expr)"""
+        pos = it[2]
+        if pos == "begin":
+            return Integer(0)
+        if pos == "end":
+            cont = it[1]
+            return cont.size if cont.size is not None else S(cont.name + ".size", integer=True, **({"positive": True} if self.assume_nonempty else {"nonnegative": True}))
+        return sp.sympify(pos)
+
     # std vocabulary --------------------------------------------------------------
     def std_call(self, e, env, c):
         nm, op = c.get("name"), c.get("op")
@@ -1266,6 +1282,26 @@ class Interp:
                 return sp.floor(self.ev(args[0], env))
             if nm == "isfinite":
                 return sp.Function("isfinite")(self.ev(args[0], env))
+            if nm == "adjacent_difference" and len(args) == 3:
+                first, last, out = (self.ev(a, env) for a in args)
+                if all(isinstance(x, tuple) and x[0] == "iter" for x in (first, last, out)) and first[1] is last[1] and first[1].kind == "scal" and out[1].kind == "scal":
+                    src, dst = first[1], out[1]
+                    a0, a1, o0 = self.iter_offset(first), self.iter_offset(last), self.iter_offset(out)
+                    n_el = sp.expand(a1 - a0)
+                    # out[o0] = in[a0];  out[o0+1+r] = in[a0+1+r] - in[a0+r]  for r in [0, n_el-1)
+                    v0 = src.read((a0,))
+                    dst.write((o0,), v0)
+                    self.record(dst.name, (sp.expand(o0),), "=", v0, e)
+                    self.range_count = n_el - 1
+                    try:
+                        vr = src.read((sp.expand(a0 + 1 + RSYM),)) - src.read((sp.expand(a0 + RSYM),))
+                        dst.write((sp.expand(o0 + 1 + RSYM),), vr)
+                        self.record(dst.name, (sp.expand(o0 + 1 + RSYM),), "=", vr, e)
+                        self.effects_ranges.append((dst.name, sp.expand(o0 + 1), n_el - 1, vr, e.get("line")))
+                    finally:
+                        self.range_count = None
+                    return ("iter", dst, sp.expand(o0 + n_el))
+                raise Unsupported("adjacent_difference on unsupported ranges (line %s)" % e.get("line"))
             if nm == "fill":
                 it = self.ev(args[0], env)
                 if isinstance(it, tuple) and it[0] == "iter":
